@@ -37,11 +37,13 @@ ASSUME \A c \in Cubics, P \in MCPressures :
 EmitCases == IF "OUT_FILE" \in DOMAIN IOEnv
              THEN JsonSerialize(IOEnv.OUT_FILE, SetToSeq(Cases))
              ELSE TRUE
+\* SetParam is enabled somewhere: two modelled cubics share RT/P
+ASSUME \E c1 \in EditCubics, c2 \in EditCubics : c1 # c2 /\ RTOf(c1, <<1, 1>>) = RTOf(c2, <<1, 1>>)
 ASSUME EmitCases
 
 \* the last action name is history only: collapse it in the exhaustive run
-MCView == <<eos, cub, st>>
+MCView == <<eos, cub, st, memo>>
 
-NoInit == eos = 0 /\ cub = 0 /\ st = 0 /\ act = ""
+NoInit == eos = 0 /\ cub = 0 /\ st = 0 /\ act = "" /\ memo = 0
 NoNext == UNCHANGED vars
 =============================================================================
